@@ -16,8 +16,16 @@
 (*  cenv = [areq; arecv; taddr; ae; uf; uidx; uid; ulen; nrsp] ++ rsp bytes                             *)
 (*  xenv = [asid; achunk; astat; taddr; ae; uf; uidx; uid; ulen; st]                                    *)
 (*  view = [0;0;0] | [1; writable length; n] ++ n device-readable bytes                                 *)
+(*  2039 configuration reads of new: ins [a0 class; a0 value; a1 class; a1 value; a2 class; a2 value]     *)
+(*                  (class 0 = the transport answers the value, 1 = it refuses with that error code)       *)
+(*                  outs [class; code; jacks; streams; chmaps] ++ (off, width) of each read_config_space    *)
+(*  1980 event queue of new (C19): ins [dev_features; start; ae; uf] ++ 32 share answers                    *)
+(*                  outs [class; code] ++ the shares [1; id; len; writable; addr] ++ [11] if queue 1 was notified *)
+(*  1981 latest_notification (C19): ins [u_idx; u_id; u_len; addr; ae; uf] ++ buffer bytes after copy-back  *)
+(*                  outs [class; has | code; type; data] ++ queue events (as kind 1901)                     *)
+(*  1982 MONITOR (C19): the clauses of SoundProofs.snd_notif_stocked on device memory and the logs          *)
 (*  2050..2066 monitors: inputs observed on the implementation, expected output [1]                     *)
-From VD Require Import Base.Words Model.Queue Model.Blk Model.BlkSpec Model.SoundSpec Model.Sound Extract.QueueIO.
+From VD Require Import Base.Words Model.Queue Model.Owning Model.Blk Model.BlkSpec Model.SoundSpec Model.Sound Extract.QueueIO.
 
 Definition enc_sev (e : sev) : list N :=
   match e with SQ _ q => enc_qev q | SNotify qi => [11; qi] end.
@@ -120,6 +128,19 @@ Definition sound_step (st : option sstate) (k : N) (ins : list N) : option sstat
         if 65536 <? w32 streams then (None, [77777]) else
         let s := snd_new feats jacks streams chmaps in
         (Some s, [b2n (q_indirect (s_tx s)); b2n (q_event_idx (s_tx s)); s_jacks s; s_streams s; s_chmaps s])
+    | _ => (st, [77777])
+    end
+  else if k =? 2039 then
+    match ins with
+    | [c0; v0; c1; v1; c2; v2] =>
+        let ans := fun c v : N => if c =? 0 then Ok v else Err v in
+        let '(o, evs) := snd_read_config (ans c0 v0) (ans c1 v1) (ans c2 v2) in
+        (st, (match o with
+              | Ok (j, s, c) => [0; 0; j; s; c]
+              | Err e => [1; e; 0; 0; 0]
+              | Panic => [2; 0; 0; 0; 0]
+              | UB => [3; 0; 0; 0; 0]
+              end) ++ concat (map (fun e => match e with SCRead off w => [off; w] end) evs))
     | _ => (st, [77777])
     end
   else
@@ -314,6 +335,34 @@ Definition mon_no_panic (ins : list N) : bool :=
   | _ => false
   end.
 
+(* 2061: configuration against the raw bytes. ins [class; jacks(); streams(); chmaps()] ++ the 12 configuration bytes *)
+Definition mon_snd_config_bytes (ins : list N) : bool :=
+  match ins with
+  | class :: gj :: gs :: gc :: cfg =>
+      let '(j, s, c) := spec_snd_config cfg in
+      (lenN cfg =? 12) && (class =? 0) && (j =? gj) && (s =? gs) && (c =? gc)
+  | _ => false
+  end.
+
+(* 2062: a stream query against the raw answer of the device to PCM_INFO.
+   ins [which; sid; class; code; n; returned values (n); count (streams in configuration space); the answer bytes] *)
+Definition mon_values_raw (ins : list N) : bool :=
+  match ins with
+  | which :: sid :: class :: code :: n :: rest =>
+      let k := cnt n rest in
+      let vals := firstn k rest in
+      match skipn k rest with
+      | count :: rsp =>
+          match spec_stream_query rsp (N.to_nat (N.min count 127)) which sid EInvalidParam with
+          | Ok want => (class =? 0) && list_eqb vals want
+          | Err e => (class =? 1) && (code =? e)
+          | _ => false
+          end
+      | _ => false
+      end
+  | _ => false
+  end.
+
 Definition sound_monitor (k : N) (ins : list N) : list N :=
   if k =? 2050 then [b2n (mon_ctl ins)] else
   if k =? 2051 then [b2n (mon_ctl_result ins)] else
@@ -325,6 +374,75 @@ Definition sound_monitor (k : N) (ins : list N) : list N :=
   if k =? 2057 then [b2n (mon_state_rule ins)] else
   if k =? 2058 then [b2n (mon_snd_config ins)] else
   if k =? 2059 then [b2n (mon_setup_order ins)] else
-  if k =? 2060 then [b2n (mon_no_panic ins)] else [77777].
+  if k =? 2060 then [b2n (mon_no_panic ins)] else
+  if k =? 2061 then [b2n (mon_snd_config_bytes ins)] else
+  if k =? 2062 then [b2n (mon_values_raw ins)] else [77777].
 
 Definition sound_is_monitor (k : N) : bool := (2050 <=? k) && (k <=? 2066).
+
+(* ---------------- the event queue (C19): kinds 1980..1989 ---------------- *)
+Definition enc_snd_oev (e : oev) : list N :=
+  match e with OQ q => enc_qev q | ONotify => [11] end.
+(* of the construction only the shares and the notification are observed *)
+Definition enc_snd_new_oev (e : oev) : list N :=
+  match e with OQ (QShare id len w addr) => enc_qev (QShare id len w addr) | ONotify => [11] | _ => [] end.
+
+Definition enc_notif_outcome (o : outcome (option (N * N))) : list N :=
+  match o with
+  | Ok None => [0; 0; 0; 0]
+  | Ok (Some (ty, data)) => [0; 1; ty; data]
+  | Err e => [1; e; 0; 0]
+  | Panic => [2; 0; 0; 0]
+  | UB => [3; 0; 0; 0]
+  end.
+
+Definition sndevt_step (st : option qstate) (k : N) (ins : list N) : option qstate * list N :=
+  if k =? 1980 then
+    match ins with
+    | feats :: start :: ae :: uf :: addrs =>
+        if lenN addrs =? 32 then
+          let '(o, q, evs) := snd_evq_new feats start addrs ae uf in
+          (Some q, enc_unit_outcome o ++ concat (map enc_snd_new_oev evs))
+        else (st, [77777])
+    | _ => (st, [77777])
+    end
+  else if k =? 1981 then
+    match st, ins with
+    | Some q, u_idx :: u_id :: u_len :: addr :: ae :: uf :: bytes =>
+        let '(o, q', evs) := snd_latest_notification q (mkNV u_idx u_id u_len bytes addr ae uf) in
+        (Some q', enc_notif_outcome o ++ concat (map enc_snd_oev evs))
+    | _, _ => (st, [77777])
+    end
+  else (st, [77777]).
+
+(* 1982, one latest_notification:
+   [pending; id_in_range; class; code; has; avail_delta; reposted_head; used_id; desc_len; desc_writable; desc_is_buf;
+    notifies_q1; notifies_other; must_notify; shares; unshares; used_len; type returned; data returned;
+    code the device wrote; data the device wrote]
+   pending / id_in_range / avail_delta / reposted_head / desc_* / must_notify / shares / unshares as in monitor 1970 (the
+   descriptor named by the ring entry the call published, as the device reads it; desc_is_buf: it points at a live share of
+   event buffer used_id, 8 bytes); code / data the device wrote: the two le32 at the start of the completed buffer.
+   Clauses of SoundProofs.snd_notif_stocked: nothing pending -> None and nothing touched; id outside the queue -> WrongToken
+   and nothing touched; otherwise - whatever length the device recorded and whatever the bytes are - the buffer is posted
+   again under the same token, queue 1 is notified iff required, and the result is the specification's reading of the bytes
+   recorded as written *)
+Definition mon_snd_notif (ins : list N) : bool :=
+  match ins with
+  | [pending; inrange; class; code; has; adelta; head; uid; dlen; dw; disbuf; n1; nother; must; shares; unshares; ulen; ty; data; dcode; ddata] =>
+      if pending =? 0 then
+        (class =? 0) && (has =? 0) && (adelta =? 0) && (n1 =? 0) && (nother =? 0) && (shares =? 0) && (unshares =? 0)
+      else if inrange =? 0 then
+        (class =? 1) && (code =? EWrongToken) && (adelta =? 0) && (n1 =? 0) && (nother =? 0) && (shares =? 0) && (unshares =? 0)
+      else
+        (adelta =? 1) && (head =? uid) && (dlen =? 8) && (dw =? 1) && (disbuf =? 1)
+        && (nother =? 0) && (n1 <=? 1) && implb (must =? 1) (n1 =? 1) && (shares =? 1) && (unshares =? 1)
+        && (if 8 <? ulen then (class =? 1) && (code =? EIoError)
+            else if ulen =? 8 then
+              (if spec_event_known dcode then (class =? 0) && (has =? 1) && (ty =? dcode) && (data =? ddata)
+               else (class =? 1) && (code =? EIoError))
+            else (class =? 0) && (has =? 0))
+  | _ => false
+  end.
+
+Definition sndevt_is_monitor (k : N) : bool := (k =? 1982).
+Definition sndevt_monitor (k : N) (ins : list N) : list N := if k =? 1982 then [b2n (mon_snd_notif ins)] else [77777].
